@@ -497,6 +497,7 @@ func (w *World) serveCRL(cp *CertPlan, src *CRLSrc, isDelta bool) func(x *Exchan
 			plan = &src.Delta
 		}
 		s := w.buildCRL(cp, src, plan, isDelta, now)
+		s.Origin = x.URL
 		x.Rec.Served = &CRLServed{Spec: s}
 		if selfCheckSampled(x, len(s.DER)) {
 			selfCheckCRL(s, w.Certs[cp.Pos+1].C.X)
@@ -619,6 +620,7 @@ func (s *stubFetcher) Fetch(ctx context.Context, u string) (*corecrl.Bundle, err
 	}
 	now := time.Now()
 	base := ss.w.buildCRL(ss.cp, ss.src, &ss.src.Base, false, now)
+	base.Origin = ss.src.URL
 	bx, err := x509.ParseRevocationList(base.DER)
 	if err != nil {
 		return nil, fmt.Errorf("sim: stub base unparsable: %w", err)
@@ -842,6 +844,7 @@ func (sc *RevScenario) seedCache(c *SimCache) error {
 					bp.NextKind = NuAbsent
 				}
 				base := w.buildCRL(cp, s, &bp, false, Epoch)
+				base.Origin = s.URL
 				bx, err := x509.ParseRevocationList(base.DER)
 				if err != nil {
 					return fmt.Errorf("cache seed base: %w", err)
@@ -1229,6 +1232,13 @@ func (sc *RevScenario) execInBubble(obs *RevObs, altSeed uint32, onlyWorld int, 
 			if !op.Done {
 				obs.InFlight = append(obs.InFlight, "cache."+op.Op)
 			}
+		}
+	}
+	// a response body the library was handed but never closed keeps the
+	// client's timer goroutine (and, on a real transport, the connection) alive
+	for _, x := range nt.All() {
+		if x.Rec.Outcome == "response" && x.Rec.Returned && !x.Rec.Closed && !(x.Fault.Kind == FRedirect && !x.Rec.Redirected) {
+			obs.InFlight = append(obs.InFlight, "unclosed_body:"+x.Key)
 		}
 	}
 	// let any leaked goroutine make progress: if something completes after the
